@@ -384,6 +384,9 @@ def run(chk, repo):
     chk.clauses.append('C05.j (shared R-THREAD) an option value bound to a name that is itself a CLI option carries that very option')
     optname(chk, repo, 'C05.j', ['cli.call_variant_peptide'], floor=0)
     from rules.shared import copy_own_containers
+    from rules.shared import lazy_cache_starts_empty
+    chk.clauses.append('C05.m (R-FRESH) the cached length of a miscleaved node series is computed from its own nodes (cache starts empty): the min / max length limits act on the real length')
+    lazy_cache_starts_empty(chk, repo, 'C05.m', ['svgraph.VariantPeptideDict'], floor=1)
     from rules.C10 import rule_cleave
     chk.clauses.append('C05.l (shared with C10.e / C04.h) enzymatic_cleave emits every window within the miscleavage limit and the M-cleaved form: the canonical pool grows monotonically with the limits')
     rule_cleave(chk, repo, rid='C05.l')
